@@ -92,10 +92,10 @@ func allChecks() []*Check {
 			Harnesses: []Harness{
 				{Pkg: "client", Func: "VerifC13Event", Quick: map[string]int{"NU": 1, "NC": 2}, Thorough: map[string]int{"NU": 2, "NC": 2},
 					Asserts: []string{"GetNick", "GetChannel", "IsOn", "Me", "tracked-sets", "invariant", "requests-issued", "requests-count"}},
-				{Pkg: "client", Func: "VerifC13Arbitrary", Quick: map[string]int{"NU": 1, "NC": 1, "NA": 2}, Thorough: map[string]int{"NU": 2, "NC": 2, "NA": 3},
+				{Pkg: "client", Func: "VerifC13Arbitrary", Quick: map[string]int{"NU": 1, "NC": 1, "NA": 2}, Thorough: map[string]int{"NU": 2, "NC": 1, "NA": 2},
 					Asserts: []string{"client-still-tracked", "no-channel-without-the-client", "no-user-without-shared-channel"}},
 			},
-			Bounds:      map[string]string{"quick": "pre-state: any conformant network state over the client + 1 other user x 2 channels (names 1 symbolic byte, privileges/modes/topics/details symbolic), tracker built directly as its view; one event of {own JOIN + NAMES with prefixes (+332, +324), other's JOIN (known/new), PART, KICK, QUIT, NICK, channel MODE (privilege / flags / +kl / -l), TOPIC, 352, own user MODE}; arbitrary lines: 15 handled verbs with source and 0..2 arguments drawn from the universe's names, fixed oddities or a symbolic byte", "thorough": "2 other users x 2 channels, 0..3 arguments"},
+			Bounds:      map[string]string{"quick": "pre-state: any conformant network state over the client + 1 other user x 2 channels (names 1 symbolic byte, privileges/modes/topics/details symbolic), tracker built directly as its view; one event of {own JOIN + NAMES with prefixes (+332, +324), other's JOIN (known/new), PART, KICK, QUIT, NICK, channel MODE (privilege / flags / +kl / -l), TOPIC, 352, own user MODE}; arbitrary lines: 15 handled verbs with source and 0..2 arguments drawn from the universe's names, fixed oddities or a symbolic byte", "thorough": "events: 2 other users x 2 channels; arbitrary lines: 2 other users x 1 channel, 0..2 arguments (2 users x 1 channel x 0..3 arguments ran clean once in 31 min, 3.4 M paths, and is not the registered bound)"},
 			Outside:     []string{"larger universes (sessions are unbounded by induction over the conformant-state invariant)", "user modes inferred from WHO flags, -k followed by further arguments (as in the property)", "NAMES lists of more than three entries"},
 			Stubs:       []string{"tracker pre-state built directly in the heap by an exported harness bridge in package state", "reflect.DeepEqual structural model", "goroutines as coroutines"},
 			QuickBudget: 6 * time.Minute, ThorBudget: 40 * time.Minute,
